@@ -4,7 +4,8 @@ from propslib import fn_scope
 PROP = dict(
     extract=["editor"],
     lean_targets=["Chewing.Props.C06"],
-    runs=[dict(bin="editor"), dict(bin="editor", args=["--script", "c06"], tag="editor-c06-sweep")],
+    runs=[dict(bin="editor"), dict(bin="editor", args=["--script", "c06"], tag="editor-c06-sweep"),
+          dict(bin="capi_props", tag="capi_props", args=["--histories", "300", "--calls", "40"], args_thorough=["--histories", "6000", "--calls", "40"])],
     scope=fn_scope("ed key"),
     level="proof",
     exhaustive=False,
@@ -52,8 +53,11 @@ MANIFEST = dict(
          "notification strings (per-key outputs, reset by every key: they must be EMPTY after an ignored key, which is checked); "
          "the pending-flush level `dirty` and the estimator clock `time` (internal: no getter shows them; the clock ticks on every "
          "key by design). Bell: composition-editor section unchanged, display() and len() unchanged. F29 and F37 were genuine "
-         "defects, repaired by fix: commits.",
+         "defects, repaired by fix: commits. "
+         "C API (round 2, run capi_props): generated key/API histories (every chewing_handle_* handler incl. Default with all printable characters and non-characters, chewing_cand_*, option setters, buffer calls; three kinds of data directory) are driven through a C context and in lock-step through a twin chewing::editor::Editor built over the same data; after every call every C getter is compared with the twin's Rust getter (by-design differences modelled one by one: static vs heap strings, stateful Enumerate iterators, legacy zuin_*, chewing_ack) and this property's statement is evaluated on the C observations before/after the call; a difference or a failing statement is an oracle verdict with the history (FX2: the handlers narrowed the int key with `as u8`, repaired by fix a8c8390).",
     note="Trusted: Lean kernel (standard axioms), the read-only snapshot hook, harness + compiled model driver. The C getters "
-         "(chewing_keystroke_Check*) are covered by the C-API checks, not here.",
+         "(chewing_keystroke_CheckIgnore/CheckAbsorb, chewing_commit_Check, chewing_bopomofo_Check ...) and the key mapping of "
+         "the chewing_handle_* handlers are tied to the editor by the capi_props run (sampled comparison with a lock-step twin "
+         "editor, not proved).",
     technique="Lean 4 proof by exhaustive case analysis over the modelled key-event state machine; per-step model/implementation correspondence",
 )
